@@ -55,6 +55,24 @@ func genC02(r *rand.Rand, t *Trace, thorough bool) {
 		for it := 0; it < per; it++ {
 			p, ntrain := rndParams(r, kind, thorough)
 			o := vecHistOpts{nops: 6 + r.Intn(30), trainFirst: it%8 != 0, ntrain: ntrain, allowReuse: it%2 == 1}
+			if (kind == 1 || kind == 3) && it%4 == 1 {
+				// few coordinates from a small pool: centroids at exactly equal distance from a query are
+				// frequent -- each probed cell is still scored against its own centroid
+				o.forceStyle = -1
+				p.dim = 1 + r.Intn(2)
+				p.nlist = 2 + r.Intn(2)
+				o.ntrain = ntrain
+				if kind == 3 {
+					// mirror-image clusters: centroids in pairs at exactly equal distance from every query on the
+					// mirror plane -- each probed cell is still scored against its own centroid
+					o.mirror = true
+					p.dim = 2
+					p.m, p.nbits = 1, 1+r.Intn(2)
+					p.nlist = 2
+					o.ntrain = 8 + 2*r.Intn(4)
+					o.trainFirst = true
+				}
+			}
 			c := runVecHistory(r, p, o, t)
 			t.Emit(c, "kind."+names[kind], "metric."+string(metrics[p.metric]))
 		}
@@ -117,6 +135,12 @@ func genC14(r *rand.Rand, t *Trace, thorough bool) {
 				p.m = pickM(r, p.dim)
 			}
 			o := vecHistOpts{nops: 8 + r.Intn(30), trainFirst: it%10 != 0, ntrain: ntrain, allowReuse: it%3 == 1, allowDup: it%4 == 2}
+			if kind == 3 && it%5 == 2 {
+				// mirror-image clusters (see C02): tied centroid distances, each cell scored against its own centroid
+				o.mirror, o.forceStyle = true, -1
+				p.dim, p.m, p.nbits, p.nlist = 2, 1, 1+r.Intn(2), 2
+				o.ntrain, o.trainFirst, o.allowDup = 8+2*r.Intn(4), true, false
+			}
 			c := runVecHistory(r, p, o, t)
 			t.Emit(c, []string{"", "", "pq", "ivfpq"}[kind]+".metric."+string(metrics[p.metric]))
 		}
